@@ -9,6 +9,7 @@ import Iodata.Lemmas.Fmt.FcidumpW
 import Iodata.Lemmas.Fmt.PoscarW
 import Iodata.Lemmas.Fmt.FchkO
 import Iodata.Lemmas.Fmt.WfnS
+import Iodata.Lemmas.Fmt.WfxS
 import Iodata.Gen.LayoutsW
 
 namespace Iodata.Props.C15W
@@ -126,6 +127,22 @@ theorem wfn_generations (T : Tables) (L : WfnS.Layout) (hL : WfnS.LayoutOK L) (o
 
 /-- WFN: the source has the shape the theorems assume. -/
 theorem wfn_current : WfnS.LayoutOK wfnL ∧ wfnSource = WfnS.expectedSource wfnL := by
+  decide +kernel
+
+/-! ## WFX (section layer) -/
+
+/-- WFX: the sections as the reader knows them (`normSec`: text lines without surrounding blanks, numbers as decoded by
+`wfx_numbers`) are a fixed point: written again they give a file that `parse_wfx` reads into the same dictionary, they
+stay in the domain, and normalising twice changes nothing. -/
+theorem wfx_norm_stable (L : WfxS.Layout) (secs : List WfxS.Sec) (h : WfxS.Dom L secs) :
+    WfxS.parse (WfxS.dump L (secs.map WfxS.normSec)) = WfxS.parse (WfxS.dump L secs) ∧
+    WfxS.Dom L (secs.map WfxS.normSec) ∧ (secs.map WfxS.normSec).map WfxS.normSec = secs.map WfxS.normSec := by
+  refine ⟨?_, WfxS.dom_normSec L secs h, ?_⟩
+  · rw [WfxS.parse_dump L _ (WfxS.dom_normSec L secs h), WfxS.parse_dump L secs h, WfxS.norm_normSec]
+  · rw [List.map_map]; apply List.map_congr_left; intro s _; exact WfxS.normSec_idem s
+
+/-- WFX: the source has the shape the theorems assume. -/
+theorem wfx_current : WfxS.LayoutOK wfxL ∧ wfx_writes = WfxS.expectedWrites wfxL ∧ wfx_parse_consts = WfxS.expectedParseConsts := by
   decide +kernel
 
 end Iodata.Props.C15W
